@@ -190,6 +190,15 @@ func (r *Run) runSlice(spec ChildSpec, a, b uint64, id int) {
 			r.Inconclusive("child %s/%s died at case %d (%s) but the case alone passes", spec.Monitor, spec.Stream, killer, res2.how)
 		} else {
 			sig, top := crashSignature(res3.stderr)
+			if sig == "crash:" && strings.Contains(res3.stderr, "goroutine ") && !strings.Contains(res3.stderr, "go.uber.org/thriftrw") {
+				// a Go crash dump without a single frame of the code under test: the harness itself failed
+				r.Inconclusive("harness fault in child %s/%s at case %d (%s): %s", spec.Monitor, spec.Stream, killer, top, tail([]byte(res3.stderr), 1500))
+				cleanupChildFiles(base)
+				cleanupChildFiles(tb)
+				cleanupChildFiles(sb)
+				a = killer + 1
+				continue
+			}
 			if SigRewrite != nil {
 				sig = SigRewrite(r.Property, sig, res3.stderr)
 			}
